@@ -121,6 +121,77 @@ func capPlaintexts(ks []*key) [][]byte {
 }
 
 func runCapacity(c *engine.Ctx, ks []*key) {
+	// the plaintext a decryption returned belongs to the caller: it is the same bytes after later decryptions of other
+	// containers (same size, smaller, larger) through the same code path - a result that is a window of recycled or
+	// shared scratch memory turns into the other container's key material
+	c.Case("widen/ownership/decrypted-plaintext-held-across-later-decryptions", func(t *engine.T) {
+		pw := []byte("C14-held")
+		pts := capPlaintexts(ks)
+		for _, op := range capOps() {
+			if op.dec == nil {
+				continue
+			}
+			key := "ownership/decrypted-plaintext/" + op.name
+			for i, pt1 := range pts {
+				pt2 := append([]byte{}, pt1...)
+				for j := range pt2 {
+					pt2[j] ^= 0x5a
+				}
+				others := [][]byte{pt2, pts[(i+1)%len(pts)], pts[(i+len(pts)-1)%len(pts)]}
+				var d1 []byte
+				var outs [][]byte
+				failed := false
+				if t.Guard(key, func() {
+					o1, err := op.enc(append([]byte{}, pt1...), pw)
+					if err != nil {
+						failed = true
+						return
+					}
+					for _, o := range others {
+						oo, err := op.enc(append([]byte{}, o...), pw)
+						if err != nil {
+							failed = true
+							return
+						}
+						outs = append(outs, oo)
+					}
+					d1, err = op.dec(o1, pw)
+					if err != nil {
+						failed = true
+					}
+				}) || failed {
+					t.Outcome("ownership/held/not-built")
+					continue
+				}
+				if !bytes.Equal(d1, pt1) {
+					continue // judged by the round-trip families
+				}
+				for oi, oo := range outs {
+					var d2 []byte
+					var err error
+					if t.Guard(key, func() { d2, err = op.dec(oo, pw) }) {
+						break
+					}
+					t.Eval(1)
+					if err != nil || !bytes.Equal(d2, others[oi]) {
+						continue
+					}
+					if !bytes.Equal(d1, pt1) {
+						t.Fail(key+"/changed-by-a-later-decryption", "%s: the %d-byte plaintext returned by the first decryption reads %s after decryption #%d of another container (%d bytes); it was %s", op.name, len(pt1), engine.Hex(d1), oi+2, len(others[oi]), engine.Hex(pt1))
+						break
+					}
+					for k := range d2 { // the caller may also scribble over what it was given
+						d2[k] = 0xee
+					}
+					if !bytes.Equal(d1, pt1) {
+						t.Fail(key+"/aliases-a-later-result", "%s: overwriting the plaintext of decryption #%d changes the plaintext returned by the first one", op.name, oi+2)
+						break
+					}
+				}
+				t.Nontrivial(fmt.Sprintf("ownership/held/%s/%d", op.name, len(pt1)%16))
+			}
+		}
+	})
 	c.Case("widen/capacity/padded-plaintext", func(t *engine.T) {
 		pw0 := []byte("C14-capacity")
 		pts := capPlaintexts(ks)
